@@ -486,9 +486,9 @@ Section PoolInst.
     - intros u q0 Hq. destruct (Nat.eq_dec u t) as [->|Nu]; [apply HownT in Hq|rewrite HownO in Hq by auto]; eapply E3; eauto.
     - intros u u' q0 Nu Hq Hq'.
       destruct (Nat.eq_dec u t) as [->|N1]; destruct (Nat.eq_dec u' t) as [->|N2]; try contradiction.
-      + apply HownT in Hq. rewrite HownO in Hq' by auto. eapply E4; eauto.
-      + apply HownT in Hq'. rewrite HownO in Hq by auto. eapply E4; eauto.
-      + rewrite HownO in Hq, Hq' by auto. eapply E4; eauto.
+      + apply HownT in Hq. rewrite HownO in Hq' by auto. exact (E4 t u' q0 Nu Hq Hq').
+      + apply HownT in Hq'. rewrite HownO in Hq by auto. exact (E4 u t q0 Nu Hq Hq').
+      + rewrite HownO in Hq, Hq' by auto. exact (E4 u u' q0 Nu Hq Hq').
     - intros u. rewrite heldby_tag. destruct (Nat.eqb_spec u t) as [->|Nu].
       + rewrite held_ret_alloc, updx_same, E5, Hx. cbn [fst]. destruct (Z.eqb_spec p 0); [lia|reflexivity].
       + rewrite updx_other by auto. apply E5.
@@ -544,7 +544,7 @@ Section PoolInst.
       + rewrite HownT in Hq'. rewrite HownO in Hq by auto. apply in_app_or in Hq'. destruct Hq' as [Hq'|[<-|[]]].
         * eapply (E4 u t q0); eauto. now rewrite Hown.
         * eapply F2; eauto.
-      + rewrite HownO in Hq, Hq' by auto. eapply E4; eauto.
+      + rewrite HownO in Hq, Hq' by auto. exact (E4 u u' q0 Nu Hq Hq').
     - intros u. rewrite heldby_tag. destruct (Nat.eqb_spec u t) as [->|Nu].
       + rewrite held_ret_alloc, updx_same, E5, Hx. cbn [fst]. fold h. destruct (Z.eqb_spec h 0); [lia|reflexivity].
       + rewrite updx_other by auto. apply E5.
@@ -603,7 +603,7 @@ Section PoolInst.
       destruct (Nat.eq_dec u t) as [->|N1]; destruct (Nat.eq_dec u' t) as [->|N2]; try contradiction.
       + apply HownT in Hq. rewrite HownO in Hq' by auto. eapply (E4 t u' q0); eauto. now rewrite Hown.
       + apply HownT in Hq'. rewrite HownO in Hq by auto. eapply (E4 u t q0); eauto. now rewrite Hown.
-      + rewrite HownO in Hq, Hq' by auto. eapply E4; eauto.
+      + rewrite HownO in Hq, Hq' by auto. exact (E4 u u' q0 Nu Hq Hq').
     - intros u. rewrite heldby_tag. destruct (Nat.eqb_spec u t) as [->|Nu].
       + rewrite held_inv_dealloc, updx_same, E5, Hx. reflexivity.
       + rewrite updx_other by auto. apply E5.
